@@ -159,6 +159,15 @@ where
         let remainder = proof.parse_remainder()?;
         let (layer_queries, layer_proofs) =
             proof.parse_layers::<E, H, V>(domain_size, folding_factor)?;
+        // there is one commitment per layer plus one for the remainder; the verifier takes one
+        // layer out of the channel per commitment, so the counts must match
+        if layer_proofs.len() + 1 != layer_commitments.len() {
+            return Err(DeserializationError::InvalidValue(format!(
+                "expected {} FRI layers, but the proof contains {}",
+                layer_commitments.len().saturating_sub(1),
+                layer_proofs.len()
+            )));
+        }
 
         Ok(DefaultVerifierChannel {
             layer_commitments,
